@@ -32,7 +32,7 @@ def run(report, db, tier):
     R7 = report.rule('R10.7', 'every compared packet_name exists in the '
                      'login table and the arm reads only fields of that '
                      'class')
-    arms = shared.name_agreement(report, R7, db, P, lr, 'login')
+    arms = shared.name_agreement(report, R7, db, P, lr, 'login', M)
     report.floor('login arms', len(arms), 5)
     R8 = report.rule('R10.8', 'packets written by the login reactor and by '
                      'connect() have every field set')
